@@ -11,7 +11,7 @@
   T  spec/mc/UnfoldingTopo.tla validates the (non unique) topological orders returned by the implementation.
   M  the lemmas of Unfolding.tla (closure, symmetry of conflict, "near" conflicts decide conflict-freedom of causally
      closed sets, maximal events generate a configuration, one latest event per actor) are checked by TLC on every
-     generated unfolding of at most 5 events.
+     generated unfolding of at most 4 (thorough: 5) events.
 
 Genuine deviations found on the unchanged tree (KNOWN_FINDINGS.jsonl, proposed/fix-C44-*.diff):
   * UnfoldingEvent::conflicts_with misses conflicts that are only inherited from two strict ancestors
@@ -66,7 +66,14 @@ def _check_cases(ctx, alpha, labels, cases, tag):
                               signature="C44:%s:crash:%s" % (alpha, vlib.canon_hash(cases[k]["events"])), detail=err2[-1500:])
                 return recs
         raise vlib.InfraError("udpor_unit_driver failed: rc=%s, %d/%d sheets: %s" % (rc, len(recs), len(cases), err[-1500:]))
-    reported = set()
+    reported = ctx.__dict__.setdefault("_c44_reported", set())
+
+    def by_signature(case, diffs):
+        d = {}
+        for path, key, exp, gv in diffs:
+            sig = _classify(case, path, key, exp, gv) or "C44:%s:%s:%s" % (alpha, key, vlib.canon_hash(case["events"]))
+            d.setdefault(sig, []).append((path, key, exp, gv))
+        return d
     for i, (case, got) in enumerate(zip(cases, recs)):
         nsub = len(case["sub"])
         ncfg = sum(1 for s in case["sub"] if s["cfg"])
@@ -81,7 +88,11 @@ def _check_cases(ctx, alpha, labels, cases, tag):
         diffs = list(MC.compare_sheets(case, got))
         if not diffs:
             continue
-        # confirm on a fresh run of this single case
+        sigs = by_signature(case, diffs)
+        if all(sg in reported for sg in sigs):          # only deviations already reported in this run (recorded classes)
+            ctx.cov["recorded_deviation_occurrences"] = ctx.cov.get("recorded_deviation_occurrences", 0) + len(sigs)
+            continue
+        # a rejection is reported only if a fresh run of this single case is rejected again
         one = MC.alphabet_script(labels) + MC.case_script(1, case)
         rc2, recs2, err2, _ = MC.run_udpor_driver(ctx, one, "%s_re%d" % (tag, i))
         if rc2 != 0 or len(recs2) != 1:
@@ -90,12 +101,8 @@ def _check_cases(ctx, alpha, labels, cases, tag):
         if not diffs:
             ctx.cov["unconfirmed_rejections"] = ctx.cov.get("unconfirmed_rejections", 0) + 1
             continue
-        by_sig = {}
-        for path, key, exp, gv in diffs:
-            sig = _classify(case, path, key, exp, gv) or "C44:%s:%s:%s" % (alpha, key, vlib.canon_hash(case["events"]))
-            by_sig.setdefault(sig, []).append((path, key, exp, gv))
-        for sig, ds in by_sig.items():
-            if sig in reported and not sig.startswith("C44:%s:" % alpha):
+        for sig, ds in by_signature(case, diffs).items():
+            if sig in reported:
                 ctx.cov["recorded_deviation_occurrences"] = ctx.cov.get("recorded_deviation_occurrences", 0) + 1
                 continue
             if len(reported) >= 12:
@@ -161,8 +168,9 @@ def _iterators(ctx):
         ctx.count({"iter": c["enum"], "n": c.get("n"), "k": c.get("k"), "sizes": c.get("sizes")},
                   nontrivial=len(c.get("ksub", c.get("tuples", []))) > 1)
         if c["enum"] == "K" and c["k"] == 0:
-            c = dict(c)
+            c, g = dict(c), dict(g)
             c.pop("ksub")       # the 0-subsets: the code yields nothing, the documentation does not say (left open)
+            g.pop("ksub", None)
         ds = list(MC.compare_sheets(c, g))
         if ds:
             ctx.violation("an enumerator of src/xbt/utils/iter does not yield every element exactly once: %s" % (ds[0],),
@@ -178,8 +186,8 @@ def run(ctx):
     second = names[1 + ctx.seed % (len(names) - 1)]
     plan = []   # (alphabet, exhaustive params, sampled params, number of simulated behaviours)
     if quick:
-        plan.append(("locks2", dict(maxn=5, slicefrom=5, slices=4, slice=ctx.seed % 4), dict(maxn=12, nsub=8), 6))
-        plan.append((second, dict(maxn=4, slicefrom=4, slices=2, slice=ctx.seed % 2), dict(maxn=15, nsub=8), 4))
+        plan.append(("locks2", dict(maxn=5, slicefrom=5, slices=16, slice=ctx.seed % 16), dict(maxn=12, nsub=8), 3))
+        plan.append((second, dict(maxn=4, slicefrom=4, slices=6, slice=ctx.seed % 6), dict(maxn=15, nsub=8), 2))
     else:
         plan.append(("locks2", dict(maxn=6, slicefrom=6, slices=6, slice=ctx.seed % 6), dict(maxn=15, nsub=16), 60))
         for a in names[1:]:
@@ -191,7 +199,7 @@ def run(ctx):
         dep = MC.real_label_dependency(ctx, labels, "dep_" + alpha)
         ctx.cov["alphabets"][alpha] = {"labels": dep["labstr"], "actors": dep["labactor"], "real_dependency": dep["labdep"]}
         base = {"labdep": dep["labdep"], "labactor": dep["labactor"], "npairs": 10, "fmask": 0b0101101011010110 ^ (ctx.seed & 0xffff),
-                "fullupto": 6, "nsub": 8, "emitfrom": 1, "slicefrom": 99, "slices": 1, "slice": 0}
+                "fullupto": 6, "nsub": 8, "emitfrom": 1, "lemmaupto": 4 if quick else 5, "slicefrom": 99, "slices": 1, "slice": 0}
         p1 = dict(base, mode="exh", **exh)
         r1, cases1 = MC.tlc_unfoldings(ctx, p1, "exh_" + alpha, timeout=900 if quick else 3000)
         ctx.add_tlc(r1)
@@ -201,7 +209,7 @@ def run(ctx):
             "slice_of_largest_size": "%d/%d" % (p1["slice"] + 1, p1["slices"])}
         p2 = dict(base, mode="sample", emitfrom=6, **smp)
         r2, cases2 = MC.tlc_unfoldings(ctx, p2, "smp_" + alpha, simulate="num=%d" % nsim, seed=ctx.seed + 1,
-                                       timeout=900 if quick else 3000, workers=4, lemmas=False)
+                                       timeout=900 if quick else 3000, workers=1 if quick else 4, lemmas=False)
         ctx.add_tlc(r2)
         ctx.cov["alphabets"][alpha]["sampled"] = {"behaviours": nsim, "max_events": p2["maxn"], "sheets": len(cases2)}
         if not cases1:
